@@ -109,6 +109,14 @@ CHECKS = {
         "exhaustive": {"quick": False, "thorough": False},
         "trusted_base": ["provenance model over tagged bytes in harness/chk-net/src/c17.rs", "counting global allocator (vmon::alloc)"],
     },
+    "C10": {
+        "engines": [
+            eng("native-release", "chk-snap", NATIVE_REL, params={"all": {"scale": 3}}),
+            eng("native-debugassert", "chk-snap", NATIVE_CHK, params={"all": {"scale": 1}}),
+        ],
+        "exhaustive": {"quick": False, "thorough": False},
+        "trusted_base": ["reference token decision procedure in harness/chk-snap/src/c10.rs", "ed25519-dalek", "serde_json"],
+    },
 }
 
 LEVEL = {p: "exploration" for p in CHECKS}
